@@ -69,6 +69,7 @@ pub fn judge(input: &[u8], with_storage: bool, loc: &mut Local) {
 }
 
 pub fn run(ctx: &Ctx) {
+    ctx.enable_trace_pass(ctx.tier.pick(20000u64, 200000u64));
     ctx.set_rule("case = (byte string, storage mode) from the decode input space; non-trivial = parsing yields a message AND the re-serialisation has the length the message's own header declares (the premise of the property); the evidence lists how often the premise held per family");
     for f in decode_inputs(ctx.tier) {
         let gen = &f.gen;
